@@ -157,6 +157,7 @@ def run_case(case):
         pio = precomputed_io.get_IO_for_new_dataset(copy.deepcopy(sinfo), acc)
         g = np.random.default_rng(case["cseed"])
         dt = np.dtype(sdt)
+        written = {}
         for sc in sinfo["scales"]:
             for c in _chunks(sc):
                 shp = (nch, c[5] - c[4], c[3] - c[2], c[1] - c[0])
@@ -167,9 +168,28 @@ def run_case(case):
                         np.iinfo(dt).max // 7)
                 else:
                     arr = g.integers(0, np.iinfo(dt).max, shp, dtype=dt, endpoint=True)
+                written[(sc["key"], c)] = arr.copy()
                 pio.write_chunk(arr, sc["key"], c)
         if hasattr(acc, "close"):
             acc.close()
+        if src_sharded and rnd.random() < 0.3:
+            # the older on-disk form of the same format: every <n>.shard kept as the pair
+            # <n>.index (shard index) + <n>.data (everything after it)
+            obs["legacy_index_data_sources"] = 1
+            for sc in sinfo["scales"]:
+                n = 16 << sc["sharding"]["minishard_bits"]
+                sd = os.path.join(src, sc["key"])
+                for fn in (os.listdir(sd) if os.path.isdir(sd) else []):
+                    if not fn.endswith(".shard"):
+                        continue
+                    p = os.path.join(sd, fn)
+                    with open(p, "rb") as f:
+                        b = f.read()
+                    with open(p[:-6] + ".index", "wb") as f:
+                        f.write(b[:n])
+                    with open(p[:-6] + ".data", "wb") as f:
+                        f.write(b[n:])
+                    os.remove(p)
         # ---- destination
         dst = os.path.join(top, "dst")
         args = []
@@ -254,7 +274,15 @@ def run_case(case):
                f"{'(over HTTP) ' if remote else ''}-> dst {ddt} {denc} "
                f"{'sharded' if dst_sharded else 'plain'} args {args}")
         before = shardlib.tree_digest(src)[0]
-        sdata, _ = _read_all(np, src)
+        # the expected voxels are the arrays that were written into the source, not what the
+        # package reads back from it
+        try:
+            sread, _ = _read_all(np, src)
+        except Exception as exc:  # noqa: BLE001
+            v.append({"kind": "source-dataset-cannot-be-read",
+                      "detail": f"{ctx}: {type(exc).__name__}: {str(exc)[:200]}"})
+            return {"violations": v, "obs": obs}
+        sdata = written
         if dst_mode != "copy":
             sdata = {k: a for k, a in sdata.items() if k[0] in dst_keys}
         from harness import cli
@@ -341,6 +369,7 @@ def gates(obs, tier):
         "copy_info_cases": obs.get("copy_info", 0) > 5,
         "remote_sources": obs.get("remote_source", 0) > 5,
         "wider_types": obs.get("wider_type", 0) > 10,
+        "legacy_index_data_sources": obs.get("legacy_index_data_sources", 0) > 2,
         "sharded_sources_and_destinations": obs.get("sharded_src", 0) > 5
         and obs.get("sharded_dst", 0) > 5,
         "encoding_changes": obs.get("encoding_change", 0) > 10,
